@@ -52,14 +52,13 @@ def parseOptMsg (s : String) : Option (Option Msg) :=
 def parseQs (q : String) : Option (List QEntry) :=
   if q = "-" then some [] else (q.splitOn ";").mapM parseQEntry
 
-/-- body: `<Q>~<edns>~<n|0|1>~<0|1>` -/
+/-- body (what follows the question section): `<edns>~<n|0|1>~<0|1>` -/
 def parseBodyToks : List String → Option Body
-  | [q, e, b, t] => do
-    let q ← parseQs q
+  | [e, b, t] => do
     let e ← e.toNat?
     let b ← if b = "n" then some none else (parseBool b).map some
     let t ← parseBool t
-    some ⟨q, e, b, t⟩
+    some ⟨e, b, t⟩
   | _ => none
 
 /-- datagram: `<hex octets>~<body>` -/
@@ -121,7 +120,7 @@ def parsePEntry (s : String) : Option (Bytes × Body) :=
 def lookupBody (tbl : List (Bytes × Body)) (frame : Bytes) : Body :=
   match tbl.find? (fun p => p.1 == frame) with
   | some p => p.2
-  | none => ⟨[], 0, none, false⟩
+  | none => ⟨0, none, false⟩
 
 def known (tbl : List (Bytes × Body)) (frame : Bytes) : Bool :=
   frame.length < 12 || tbl.any (fun p => p.1 == frame)
